@@ -11,6 +11,7 @@ A *harness* is a plain Python function ``h(ctx, **params)``.  It obtains its inp
 """
 from __future__ import annotations
 
+import os
 import time
 import traceback
 from typing import Any, Callable, Optional
@@ -48,10 +49,11 @@ def active() -> bool:
 
 
 class Stats:
-    __slots__ = ("queries", "sat", "unsat", "unknown", "time_s")
+    __slots__ = ("queries", "sat", "unsat", "unknown", "time_s", "lia_unsat", "lia_sat_confirmed", "lia_other")
 
     def __init__(self):
         self.queries = self.sat = self.unsat = self.unknown = 0
+        self.lia_unsat = self.lia_sat_confirmed = self.lia_other = 0
         self.time_s = 0.0
 
     def add(self, o: "Stats"):
@@ -60,6 +62,9 @@ class Stats:
         self.unsat += o.unsat
         self.unknown += o.unknown
         self.time_s += o.time_s
+        self.lia_unsat += o.lia_unsat
+        self.lia_sat_confirmed += o.lia_sat_confirmed
+        self.lia_other += o.lia_other
 
     def as_dict(self):
         return {
@@ -68,6 +73,7 @@ class Stats:
             "unsat": self.unsat,
             "unknown": self.unknown,
             "time_s": round(self.time_s, 3),
+            "decided_on_integer_mirror": {"unsat": self.lia_unsat, "sat_confirmed_on_bitvectors": self.lia_sat_confirmed, "fell_back_to_bitvectors": self.lia_other},
         }
 
 
@@ -101,6 +107,13 @@ class Ctx:
             self.model: Optional[z3.ModelRef] = None
             self.model_valid = False
             self.pc_len = 0
+        # optional second encoding of the same path condition over mathematical integers (the
+        # "mirror", see ints.SymInt.i): linear arithmetic that bit-blasting decides badly
+        self.lia = bool(self.opts.get("lia")) and mode == "sym"
+        if self.lia:
+            self.lia_solver = z3.Solver()
+            self.lia_solver.set("timeout", int(self.opts.get("lia_timeout_ms", 3000)))
+            self.lia_vars: dict[str, tuple] = {}
 
     # ------------------------------------------------------------------ solver plumbing
     def _fresh_check(self):
@@ -123,6 +136,9 @@ class Ctx:
             if r == z3.unknown and not extra:
                 r = self._fresh_check()
         dt = time.perf_counter() - t0
+        if dt > 2 and os.environ.get("SX_SLOWQ"):
+            with open(os.environ["SX_SLOWQ"], "a") as fh:
+                fh.write("; %.1fs %s\n%s\n" % (dt, r, self.solver.to_smt2() if self.pos >= 0 else ""))
         st = self.stats
         st.queries += 1
         st.time_s += dt
@@ -134,7 +150,67 @@ class Ctx:
             st.unknown += 1
         return r
 
+    def lia_var(self, name, bv, lo, hi):
+        """Integer-sort twin of input `name` (None unless the harness opted in)."""
+        if not getattr(self, "lia", False):
+            return None
+        i = z3.Int(name)
+        self.lia_vars[name] = (bv, i)
+        self.lia_solver.add(i >= lo, i <= hi)
+        return i
+
+    def _lia_try(self, conds, mirrors):
+        """Decide pc & conds on the integer mirror.  The mirror of the path condition is a
+        subset of the real one (conditions without a mirror are dropped), so `unsat` carries
+        over; a mirror model is only a hint and is confirmed on the bit-vector encoding with
+        all inputs pinned.  Returns (unsat, None), (sat, bv_model) or (None, None)."""
+        t0 = time.perf_counter()
+        st = self.stats
+        ls = self.lia_solver
+        ls.push()
+        try:
+            for m in mirrors:
+                ls.add(m)
+            r = ls.check()
+            lm = ls.model() if r == z3.sat else None
+        finally:
+            ls.pop()
+        out = (None, None)
+        if r == z3.unsat:
+            st.lia_unsat += 1
+            st.unsat += 1
+            out = (z3.unsat, None)
+        elif r == z3.sat:
+            pins = []
+            for bv, i in self.lia_vars.values():
+                v = lm.eval(i, model_completion=True).as_long()
+                pins.append(bv == z3.BitVecVal(v, bv.size()))
+            self.solver.push()
+            try:
+                for c in conds:
+                    self.solver.add(c)
+                r2 = self.solver.check(*pins)
+                if r2 == z3.sat:
+                    st.lia_sat_confirmed += 1
+                    st.sat += 1
+                    out = (z3.sat, self.solver.model())
+            finally:
+                self.solver.pop()
+        if out[0] is None:
+            st.lia_other += 1
+        else:
+            st.queries += 1
+        st.time_s += time.perf_counter() - t0
+        return out
+
     def _ensure_model(self):
+        if not self.model_valid and self.lia:
+            r, m = self._lia_try((), ())
+            if r == z3.unsat:
+                raise PathAbort()
+            if r == z3.sat:
+                self.model = m
+                self.model_valid = True
         if not self.model_valid:
             r = self._check()
             if r == z3.sat:
@@ -147,12 +223,18 @@ class Ctx:
                 raise PathCut("unknown")
         return self.model
 
-    def _add(self, c):
+    def _add(self, c, mirror=None):
         self.solver.add(c)
         self.pc_len += 1
+        if mirror is not None and self.lia:
+            self.lia_solver.add(mirror)
 
-    def sat_with(self, *conds):
+    def sat_with(self, *conds, mirrors=None):
         """Is pc & conds satisfiable?  Returns (result, model|None)."""
+        if self.lia and mirrors is not None and all(m is not None for m in mirrors):
+            r, m = self._lia_try(conds, mirrors)
+            if r is not None:
+                return r, m
         self.solver.push()
         try:
             for c in conds:
@@ -164,7 +246,7 @@ class Ctx:
             self.solver.pop()
 
     # ------------------------------------------------------------------ decisions
-    def branch(self, cond) -> bool:
+    def branch(self, cond, mirror=None) -> bool:
         """Decide a symbolic condition (z3 BoolRef) on this path."""
         if self.mode != "sym":
             raise EngineError("branch in concrete mode")
@@ -181,7 +263,7 @@ class Ctx:
             if e[0] != "b":
                 raise EngineError("trace divergence: expected branch, got %r" % (e,))
             val = e[1]
-            self._add(cond if val else z3.Not(cond))
+            self._add(cond if val else z3.Not(cond), None if mirror is None else (mirror if val else z3.Not(mirror)))
             if self.pos == len(self.trace) and len(e) > 3 and e[3] is not None:
                 self.model = e[3]
                 self.model_valid = True
@@ -201,14 +283,14 @@ class Ctx:
             first = r == z3.sat
             self.model_valid = False
         other = z3.Not(cond) if first else cond
-        r, om = self.sat_with(other)
+        r, om = self.sat_with(other, mirrors=[None if mirror is None else (z3.Not(mirror) if first else mirror)])
         if r == z3.unknown:
             self.inconclusive.append("solver unknown at branch")
         alt = r == z3.sat
         self.trace.append(("b", first, alt, om if alt else None))
         self.pos += 1
         self.new_decisions += 1
-        self._add(cond if first else z3.Not(cond))
+        self._add(cond if first else z3.Not(cond), None if mirror is None else (mirror if first else z3.Not(mirror)))
         return first
 
     def pick_value(self, term):
@@ -240,7 +322,9 @@ class Ctx:
             return
         from .ints import SymBool
 
+        mirror = None
         if isinstance(cond, SymBool):
+            mirror = cond.i
             cond = cond.t
         if isinstance(cond, bool):
             if not cond:
@@ -251,7 +335,7 @@ class Ctx:
             return
         if z3.is_false(cond):
             raise PathAbort()
-        self._add(cond)
+        self._add(cond, mirror)
         if self.model_valid:
             mv = self.model.eval(cond, model_completion=True)
             if not z3.is_true(mv):
@@ -342,8 +426,10 @@ class Ctx:
                     self.violations.setdefault(label, rec)
                 raise PathAbort()
             return
+        mirror = None
         if isinstance(cond, SymBool):
             c = z3.simplify(cond.t)
+            mirror = cond.i
         elif isinstance(cond, z3.BoolRef):
             c = z3.simplify(cond)
         else:
@@ -354,7 +440,7 @@ class Ctx:
         sigs = self._known_sigs(label)
         # 1. violation outside every known signature?
         outside = [neg] + [z3.Not(s) for _, s in sigs]
-        r, m = self.sat_with(*outside)
+        r, m = self.sat_with(*outside, mirrors=[None if (mirror is None or sigs) else z3.Not(mirror)])
         if r == z3.sat:
             if label not in self.violations:
                 self.violations[label] = {
@@ -379,7 +465,7 @@ class Ctx:
         # continue under the assumption that the property holds here
         if z3.is_false(c):
             raise PathAbort()
-        self._add(c)
+        self._add(c, mirror)
         self.model_valid = False
         if self.pos >= len(self.trace):
             self._ensure_model()
@@ -419,7 +505,8 @@ class Ctx:
             v = bool(self.values.get(name, False))
             self.inputs[name] = v
             return v
-        v = SymBool(z3.Bool(name))
+        b = z3.Bool(name)
+        v = SymBool(b, b if self.lia else None)
         self.inputs[name] = v
         return v
 
